@@ -108,6 +108,10 @@ macro_rules! by_nout {
             200 => run_typed::<$ty<U200>>($inp),
             256 => run_typed::<$ty<U256>>($inp),
             300 => run_typed::<$ty<U300>>($inp),
+            // more than 256 output blocks: the output counter must carry beyond its low byte
+            8256 => run_typed::<$ty<Sum<U8192, U64>>>($inp),
+            16448 => run_typed::<$ty<Sum<U16384, U64>>>($inp),
+            32896 => run_typed::<$ty<Sum<U32768, U128>>>($inp),
             n => panic!("output size {} not instantiated", n),
         }
     };
@@ -217,6 +221,17 @@ fn gen_inputs(rng: &mut Rng, thorough: bool, streams: &str) -> Vec<Input> {
             let msg = content(rng, k, len);
             let split = split_for(rng, len, nb);
             v.push(Input { size, nout, hook: None, msg, split, stream: "long" });
+        }
+    }
+    if all {
+        // F: output longer than 256 output blocks (counter-mode output with a counter above 255)
+        let big: &[(usize, usize)] = if thorough { &[(256, 8256), (512, 16448), (1024, 32896), (256, 16448)] } else { &[(256, 8256), (512, 16448)] };
+        for (k, &(size, nout)) in big.iter().enumerate() {
+            let nb = size / 8;
+            let len = [3usize, nb + 1, 0, 2 * nb][k % 4];
+            let msg = content(rng, k, len);
+            let split = split_for(rng, len, nb);
+            v.push(Input { size, nout, hook: None, msg, split, stream: "big_output" });
         }
     }
     if !all {
